@@ -64,7 +64,7 @@ def gen(prop, stream, tier, avoid):
     nops = kn.pick([3, 4, 5, 6, 8, 10, 14, 20] + ([30, 40] if tier == "thorough" else []))
     W = [("sample", 3), ("tessellate", 3), ("read", 4), ("edit", 1.5), ("quad", 0.7), ("export", 3), ("bad_tessellate", 0.5)]
     if use_cont:
-        W += [("cadd", 2.5), ("csample", 1), ("ctess", 2.5), ("cread", 2.5)]
+        W += [("cadd", 2.5), ("csample", 1), ("ctess", 2.5), ("cread", 2.5), ("ctessellator", 0.6)]
     W = [(k, w * kn.uniform(0.4, 1.4)) for k, w in W]
     ops = []
     pool_faults = []
@@ -90,6 +90,10 @@ def gen(prop, stream, tier, avoid):
             op["after_reset"] = rng.chance(0.7)
         elif k == "csample":
             op["n"] = rng.randint(3, min(max_n, 12))
+        elif k == "ctessellator":
+            op["cls"] = rng.pick(["tri", "trim"])
+            op["used"] = rng.chance(0.6)      # the object handed over has already tessellated another surface
+            op["donor"] = rng.randrange(4)
         elif k == "ctess":
             op["num_procs"] = rng.pick([1, 1, 2, 4])
             op["delta"] = rng.chance(0.6)
@@ -121,6 +125,13 @@ def gen(prop, stream, tier, avoid):
             motif += [{"op": "cadd", "obj": 2}, {"op": "edit", "obj": kn.pick([1, 2]), "seed": kn.randrange(1 << 30)},
                       {"op": "edit", "obj": 2, "seed": kn.randrange(1 << 30)}]
         motif += [{"op": "ctess", "obj": 0, "num_procs": np_, "delta": kn.chance(0.7), "force": False}, {"op": "cread", "obj": 0}]
+        at = kn.randint(0, len(ops))
+        ops = ops[:at] + motif + ops[at:]
+    if use_cont and kn.chance(0.15):
+        # motif: the container's tessellation component is replaced between two reads of the container mesh
+        motif = [{"op": "cadd", "obj": 0}, {"op": "cadd", "obj": 1}, {"op": "cread", "obj": 0},
+                 {"op": "ctessellator", "cls": kn.pick(["tri", "trim"]), "used": kn.chance(0.8), "donor": kn.randrange(4)},
+                 {"op": kn.pick(["cread", "cread", "ctess"]), "obj": 0, "num_procs": 1, "delta": True, "force": False}]
         at = kn.randint(0, len(ops))
         ops = ops[:at] + motif + ops[at:]
     knobs["pool_faults"] = pool_faults
@@ -585,6 +596,27 @@ def run(script, ctx):
         elif k == "csample":
             cont.sample_size = op["n"]
             ctx.log("csample", op["n"])
+            ctx.ops_executed += 1
+            for m in members:
+                touched(world[m])
+        elif k == "ctessellator":
+            if not members:
+                ctx.ops_skipped += 1
+                continue
+            # the caller hands the container a tessellation component; it may be a fresh one or one that has already been
+            # used on another surface (and still holds that surface's mesh). Either way the container keeps describing
+            # its own surfaces.
+            trimmed_member = any(world[m].trim for m in members)
+            cls = g.tessellate.TrimTessellate if (op["cls"] == "trim" or trimmed_member) else g.tessellate.TriangularTessellate
+            comp = cls()
+            if op["used"]:
+                donor = shapes.twin(world[op["donor"] % len(world)].obj)
+                donor.sample_size = 3
+                donor.tessellator = comp
+                donor.tessellate()
+                ctx.probe("container_given_used_tessellator")
+            cont.tessellator = comp
+            ctx.log("ctessellator", cls.__name__, op["used"])
             ctx.ops_executed += 1
             for m in members:
                 touched(world[m])
